@@ -47,7 +47,22 @@ impl<const P: u128> ops::Mul<FiniteField<P>> for FiniteField<P> {
     type Output = FiniteField<P>;
 
     fn mul(self, rhs: FiniteField<P>) -> Self::Output {
-        FiniteField::new((self.v * rhs.v) % P)
+        match self.v.checked_mul(rhs.v) {
+            Some(prod) => FiniteField::new(prod % P),
+            None => {
+                // the product does not fit in a u128 (P > 2^64): multiply by
+                // doubling, reducing modulo P at every step (needs P < 2^127)
+                let (mut a, mut b, mut acc) = (self.v, rhs.v, 0u128);
+                while b > 0 {
+                    if b & 1 == 1 {
+                        acc = (acc + a) % P;
+                    }
+                    a = (a + a) % P;
+                    b >>= 1;
+                }
+                FiniteField::new(acc)
+            }
+        }
     }
 }
 
@@ -55,11 +70,8 @@ impl<const P: u128> ops::Sub<FiniteField<P>> for FiniteField<P> {
     type Output = FiniteField<P>;
 
     fn sub(self, rhs: FiniteField<P>) -> Self::Output {
-        FiniteField::new(if self.v > rhs.v {
-            self.v - rhs.v
-        } else {
-            rhs.v - self.v
-        })
+        // a - b = a + (P - b) modulo P; both operands are already reduced
+        FiniteField::new((self.v + (P - rhs.v)) % P)
     }
 }
 
